@@ -71,7 +71,7 @@ fn entry_generic(args: &[&str]) -> String {
     run_q(
         script,
         || {
-            let boxed = gamedig::query_with_timeout(game, &IP, port, timeout(r))?;
+            let boxed = gamedig::query_with_timeout(game, &crate::net::ip(), port, timeout(r))?;
             // the documented conversion of the protocol response to the per-game response
             Ok(match boxed.as_original() {
                 GenericResponse::Valve(v) => game::Response::new_from_valve_response(v.clone()),
@@ -95,7 +95,7 @@ fn entry_module(args: &[&str]) -> String {
     let out = run_q(
         script,
         || {
-            match crate::gen_games::valve_module(&id, &IP, port) {
+            match crate::gen_games::valve_module(&id, &crate::net::ip(), port) {
                 Some(r) => r,
                 None => {
                     exists = false;
@@ -178,7 +178,7 @@ fn entry_any_generic(args: &[&str]) -> String {
     let (Some(port), Some(script)) = (port_arg(args[1]), parse_net_args(&args[2 ..])) else {
         return "bad-case".into();
     };
-    run_q(script, || gamedig::query(game, &IP, port).map(|b| canon_any(b.as_ref())), show_any)
+    run_q(script, || gamedig::query(game, &crate::net::ip(), port).map(|b| canon_any(b.as_ref())), show_any)
 }
 
 fn entry_any_module(args: &[&str]) -> String {
@@ -193,7 +193,7 @@ fn entry_any_module(args: &[&str]) -> String {
     let out = run_q(
         script,
         || {
-            match crate::gen_games::any_module(&id, &IP, port) {
+            match crate::gen_games::any_module(&id, &crate::net::ip(), port) {
                 Some(r) => r,
                 None => {
                     exists = false;
@@ -234,10 +234,10 @@ fn entry_any_protocol(args: &[&str]) -> String {
                 "quake1" => canon_any(&quake::one::query(&a, None)?),
                 "quake2" => canon_any(&quake::two::query(&a, None)?),
                 "quake3" => canon_any(&quake::three::query(&a, None)?),
-                "prop:FFOW" => canon_any(&gamedig::games::ffow::query_with_timeout(&IP, Some(port), None)?),
-                "prop:Savage2" => canon_any(&gamedig::games::savage2::query_with_timeout(&IP, Some(port), None)?),
-                "prop:TheShip" => canon_any(&gamedig::games::theship::query_with_timeout(&IP, Some(port), None)?),
-                "prop:JC2M" => canon_any(&gamedig::games::jc2m::query_with_timeout(&IP, Some(port), None)?),
+                "prop:FFOW" => canon_any(&gamedig::games::ffow::query_with_timeout(&crate::net::ip(), Some(port), None)?),
+                "prop:Savage2" => canon_any(&gamedig::games::savage2::query_with_timeout(&crate::net::ip(), Some(port), None)?),
+                "prop:TheShip" => canon_any(&gamedig::games::theship::query_with_timeout(&crate::net::ip(), Some(port), None)?),
+                "prop:JC2M" => canon_any(&gamedig::games::jc2m::query_with_timeout(&crate::net::ip(), Some(port), None)?),
                 "prop:Mindustry" => canon_any(&gamedig::games::mindustry::protocol::query_with_retries(&a, &None)?),
                 "prop:Minecraft(None)" => canon_any(&minecraft::protocol::query(&a, None, None)?),
                 "prop:Minecraft(Some(Server::Java))" => canon_any(&minecraft::protocol::query_java(&a, None, None)?),
